@@ -123,8 +123,12 @@ def finish(ctx: Ctx, seed: int = 0) -> int:
     for o, k in matched:
         print(f"KNOWN-FINDING: property={ctx.prop} rule={o['rule']} construct={o['construct']} -- {k.get('what', o['detail'])}")
     replay_paths = []
+    outdir = os.path.join(OUT_DIR, ctx.prop)
+    if os.path.isdir(outdir):
+        for fn in os.listdir(outdir):
+            if fn.endswith(".json"):
+                os.remove(os.path.join(outdir, fn))
     if violations:
-        outdir = os.path.join(OUT_DIR, ctx.prop)
         os.makedirs(outdir, exist_ok=True)
         for o in violations:
             path = os.path.join(outdir, _key(o) + ".json")
